@@ -172,11 +172,17 @@ package hclsyntax
 //@ pure
 //@ ensures found: (exists i int :: { p.Tokens[i] } stopsAt(p, i) && ret.Range == p.Tokens[i].Range && (fakeNL(p, i) ==> ret.Type == TokenNewline) && (!fakeNL(p, i) ==> ret == p.Tokens[i])) || allSkipped(p) && (len(p.Tokens) >= 1 ==> ret == p.Tokens[len(p.Tokens) - 1])
 
+// (ghost: quotedRead counts the quoted-literal tokens handed to the parser, litDecodes the calls of
+// the escape decoder ParseStringLiteralToken - see parseQuotedStringLiteral below)
+// verif:ghostvar quotedRead int
+// verif:ghostvar litDecodes int
 // verif:func (*peeker).Read
 //@ nosafety
 //@ requires len(p.IncludeNewlinesStack) >= 1
-//@ assigns p
+//@ assigns p, quotedRead
+//@ ghost quotedRead = ite(ret.Type == TokenQuotedLit, old(quotedRead) + 1, old(quotedRead))
 //@ ensures len(p.IncludeNewlinesStack) == old(len(p.IncludeNewlinesStack))
+//@ ensures counted: quotedRead == ite(ret.Type == TokenQuotedLit, old(quotedRead) + 1, old(quotedRead))
 
 // The range of the next token is the range of the token Peek returns: skipped comments and
 // newlines never lend their range to the construct that follows them.
@@ -443,3 +449,31 @@ package hclsyntax
 //@ assigns w.localScopes
 //@ ensures pop: typeis(n, ChildScope) ==> len(w.localScopes) == old(len(w.localScopes)) - 1 && org(w.localScopes) == old(org(w.localScopes))
 //@ ensures keep: !typeis(n, ChildScope) ==> w.localScopes === old(w.localScopes)
+
+// ---- quoted string literals: block labels and other quoted names (unit U12b, C02) ----
+// verif:unit U12b props=C02
+// The escape decoder itself is not verified (it is a loop over the Ragel-generated scanStringLit):
+// litOK(b) is defined as "it reports no error for the bytes b", litVal(b) as the string it returns,
+// and litDecodes counts its calls.
+// verif:specfunc litOK(b []byte) bool
+// verif:specfunc litVal(b []byte) string
+// verif:func ParseStringLiteralToken
+//@ trusted
+//@ props C02,C12
+//@ assigns litDecodes
+//@ ensures counted: litDecodes == old(litDecodes) + 1
+//@ ensures litOK(tok.Bytes) ==> !hasErr(ret1)
+//@ ensures ret0 == litVal(tok.Bytes)
+// A quoted literal (block label, quoted attribute name): unless a diagnostic is reported, every literal
+// piece between the quotes is decoded by the escape decoder exactly once - no piece is taken
+// verbatim, none is decoded twice.
+// verif:func (*parser).parseQuotedStringLiteral
+//@ nosafety
+//@ requires p.peeker != nil && len(p.peeker.IncludeNewlinesStack) >= 1
+//@ ensures depth: len(p.peeker.IncludeNewlinesStack) == old(len(p.peeker.IncludeNewlinesStack))
+//@ ensures samePeeker: p.peeker == old(p.peeker)
+//@ ensures srcBytes: forall q *byte :: { deref(q) } existed(q) ==> deref(q) == old(deref(q))
+//@ ensures decoded: len(ret2) > 0 || litDecodes - old(litDecodes) == quotedRead - old(quotedRead)
+//@ loopall invariant p.peeker == old(p.peeker) && len(p.peeker.IncludeNewlinesStack) == atentry(len(p.peeker.IncludeNewlinesStack))
+//@ loopall invariant srcBytes: forall q *byte :: { deref(q) } existed(q) ==> deref(q) == old(deref(q))
+//@ loop 1 invariant decoded: len(diags) > 0 || litDecodes - old(litDecodes) == quotedRead - old(quotedRead)
